@@ -266,13 +266,73 @@ fn eval_text(ctx: &mut Ctx, c: TextCmd, a: &str, b: &str) {
     ctx.queue(op, imp);
 }
 
-fn random_text(rng: &mut Rng, max: usize) -> String {
-    let n = match rng.below(4) {
+fn text_len(rng: &mut Rng, max: usize) -> usize {
+    // a constant of /repo's sources as the length (block sizes, thresholds), else the usual spread
+    if let Some(c) = vh_proto::srcdict::int_le(rng, 70_000, 24) {
+        return c as usize;
+    }
+    match rng.below(5) {
         0 => rng.usize(4),
         1 => rng.usize(16),
         2 => rng.usize(64),
+        3 => *rng.pick(&[31usize, 32, 33, 63, 64, 65, 127, 128, 129, 255, 256, 257, 511, 512, 513, 1023, 1024, 1025, 4095, 4096, 4097]),
         _ => rng.usize(max + 1),
-    };
+    }
+}
+
+fn special_char(rng: &mut Rng) -> char {
+    match rng.below(8) {
+        0 => '"',
+        1 => '\\',
+        2 => '\r',
+        3 => '\n',
+        4 => *rng.pick(&[' ', '{', '(', ')', '}', '%', '*', '\t', '\0', '\x7f', '\x0b', '\x0c']),
+        5 => *rng.pick(&['\u{85}', '\u{2028}', '\u{2029}', '\u{a0}', '\u{feff}', '\u{200b}', '\u{ff02}', '\u{201c}', '\u{ff3c}', '\u{10a}', '\u{10d}']),
+        6 => char::from_u32(rng.range(0, 0x1f) as u32).unwrap(),
+        _ => char::from_u32(rng.range(0x80, 0x7ff) as u32).unwrap_or('é'),
+    }
+}
+
+fn random_text(rng: &mut Rng, max: usize) -> String {
+    if let Some(v) = vh_proto::srcdict::content(rng, 40, true) {
+        if let Ok(t) = String::from_utf8(v) {
+            return t;
+        }
+    }
+    let n = text_len(rng, max);
+    if rng.chance(2, 5) {
+        // sparse: ordinary text with one to three special characters at chosen positions (start, end,
+        // block boundaries, anywhere) - what a fast path over 'clean' stretches would skip
+        let fill: char = *rng.pick(&['x', 'a', ' ', '.', '0', 'é', '日']);
+        let mut cs: Vec<char> = (0..n).map(|_| if rng.chance(1, 12) { char::from_u32(rng.range(0x20, 0x7e) as u32).unwrap() } else { fill }).collect();
+        for c in cs.iter_mut() {
+            if *c == '"' || *c == '\\' {
+                *c = fill;
+            }
+        }
+        if n > 0 {
+            let k = rng.range(1, 3);
+            for _ in 0..k {
+                let pos = match rng.below(6) {
+                    0 => 0,
+                    1 => n - 1,
+                    2 => n / 2,
+                    3 => match vh_proto::srcdict::int_le(rng, n as u64, 1) {
+                        Some(p) => std::cmp::min(p as usize, n - 1),
+                        None => rng.usize(n),
+                    },
+                    4 => {
+                        let b = *rng.pick(&[8usize, 16, 32, 64, 128, 256, 512, 1024, 4096]);
+                        let m = rng.range(0, (n / b) as u64) as usize * b;
+                        std::cmp::min(m.saturating_sub(rng.usize(2)), n - 1)
+                    }
+                    _ => rng.usize(n),
+                };
+                cs[pos] = special_char(rng);
+            }
+        }
+        return cs.into_iter().collect();
+    }
     let mut s = String::new();
     for _ in 0..n {
         let c = match rng.below(10) {
@@ -338,8 +398,12 @@ fn run_c10(ctx: &mut Ctx, rng: &mut Rng, thorough: bool, shard: usize, shards: u
             }
         }
     }
+    run_c10_random(ctx, rng, thorough, shards);
+}
+
+fn run_c10_random(ctx: &mut Ctx, rng: &mut Rng, thorough: bool, shards: usize) {
     // also the raw quoted_string through `qstr` is covered by the text ops (model composes them)
-    let n = if thorough { 500_000 } else { 40_000 } / shards;
+    let n = vh_proto::srcdict::scaled(if thorough { 500_000 } else { 40_000 } / shards);
     for _ in 0..n {
         let a = random_text(rng, 1024);
         let b = random_text(rng, 64);
@@ -675,8 +739,29 @@ fn run_c14(ctx: &mut Ctx, rng: &mut Rng, thorough: bool, shard: usize, shards: u
     for uid in [false, true] {
         enumerate(ctx, uid, &mut vec![], depth, &mut counter, shard, shards);
     }
+    run_c14_random(ctx, rng, thorough, shards);
+    run_c14_rest(ctx, shard);
+}
+
+fn num32(rng: &mut Rng) -> u32 {
+    // uniform, or a constant of /repo's sources, or a decimal shape: round numbers, zero digit groups, repeated digits
+    if let Some(c) = vh_proto::srcdict::int_le(rng, u32::MAX as u64, 6) {
+        return std::cmp::max(c, 1) as u32;
+    }
+    match rng.below(4) {
+        0 => {
+            let k = rng.range(0, 9) as u32;
+            let m = rng.range(1, 42) as u64;
+            std::cmp::min(m * 10u64.pow(k) + if rng.bool() { rng.range(0, 9) } else { 0 }, u32::MAX as u64) as u32
+        }
+        1 => vh_proto::gen::gen_u32(rng).max(1),
+        _ => rng.range(1, u32::MAX as u64) as u32,
+    }
+}
+
+fn run_c14_random(ctx: &mut Ctx, rng: &mut Rng, thorough: bool, shards: usize) {
     // random chains up to 9 calls, wide numeric alphabet
-    let n = if thorough { 200_000 } else { 20_000 } / shards;
+    let n = vh_proto::srcdict::scaled(if thorough { 200_000 } else { 20_000 } / shards);
     for _ in 0..n {
         let uid = rng.bool();
         let mut calls = vec![];
@@ -691,17 +776,17 @@ fn run_c14(ctx: &mut Ctx, rng: &mut Rng, thorough: bool, shard: usize, shards: u
             // random numbers as well as boundaries
             if rng.chance(1, 3) {
                 c = match c {
-                    Call::Num(_) => Call::Num(rng.range(1, u32::MAX as u64) as u32),
+                    Call::Num(_) => Call::Num(num32(rng)),
                     Call::Range(_, _) => {
                         let mut end = |rng: &mut Rng| -> u32 {
-                            if rng.chance(1, 3) { *rng.pick(&[1u32, 2, u32::MAX, u32::MAX - 1, 1 << 31]) } else { rng.range(1, u32::MAX as u64) as u32 }
+                            if rng.chance(1, 3) { *rng.pick(&[1u32, 2, u32::MAX, u32::MAX - 1, 1 << 31]) } else { num32(rng) }
                         };
                         let a = end(rng);
                         let b = end(rng);
                         Call::Range(a, b)
                     }
-                    Call::RangeFrom(_) => Call::RangeFrom(rng.range(1, u32::MAX as u64) as u32),
-                    Call::ChangedSince(_) => Call::ChangedSince(rng.range(1, u64::MAX - 1)),
+                    Call::RangeFrom(_) => Call::RangeFrom(num32(rng)),
+                    Call::ChangedSince(_) => Call::ChangedSince(if rng.bool() { rng.range(1, u64::MAX - 1) } else { vh_proto::gen::gen_u64(rng).clamp(1, u64::MAX - 1) }),
                     x => x,
                 };
             }
@@ -713,6 +798,9 @@ fn run_c14(ctx: &mut Ctx, rng: &mut Rng, thorough: bool, shard: usize, shards: u
         }
         eval_chain(ctx, uid, &calls);
     }
+}
+
+fn run_c14_rest(ctx: &mut Ctx, shard: usize) {
     // the other commands: CHECK, CLOSE (SELECT/EXAMINE/LOGIN/LIST are judged by C10's lexer as well)
     if shard == 0 {
         let c = CommandBuilder::check();
@@ -824,6 +912,15 @@ fn main() {
                     "C10" => run_c10(&mut ctx, &mut rng, thorough, shard, shards),
                     "C14" => run_c14(&mut ctx, &mut rng, thorough, shard, shards),
                     _ => {}
+                }
+                // directed passes: one per constant of /repo's sources that the baseline does not have
+                for (fo, _name) in vh_proto::srcdict::foci() {
+                    vh_proto::srcdict::with_focus(fo, || match prop.as_str() {
+                        "C10" => run_c10_random(&mut ctx, &mut rng, thorough, shards),
+                        "C14" => run_c14_random(&mut ctx, &mut rng, thorough, shards),
+                        _ => {}
+                    });
+                    ctx.log.count("source-constant-pass");
                 }
                 ctx.flush();
                 total.lock().unwrap().merge(ctx.log);
